@@ -318,7 +318,8 @@ def _string_fragments_is_constant(fragments: list) -> bool:
 
 
 def _first_fragment_is_symbol_that_can_act_as_path(fragments: list) -> bool:
-    if fragments[0].is_constant:
+    if not fragments or fragments[0].is_constant:
+        # no fragments: the empty string (e.g. "")
         return False
     if len(fragments) == 1:
         return True
